@@ -29,7 +29,7 @@ def _finite(vals):
 def check_c03(ctx, entry, beh, origin, index_kind, fhvariant):
     """Clauses of C03 on one behaviour. Returns list of (clause, detail)."""
     hist = beh["hist"]
-    obs, _ = LC.run_history(entry["factory"], hist, origin, index_kind, fhvariant=fhvariant)
+    obs, _ = LC.run_history(entry["factory"], hist, origin, index_kind, fhvariant=fhvariant, exog=entry.get("exog", False))
     base = None
     bad = []
     for k, (step, o) in enumerate(zip(hist, obs)):
@@ -59,7 +59,7 @@ def check_c03(ctx, entry, beh, origin, index_kind, fhvariant):
             elif not _finite(o["vals"]):
                 bad.append(("Finite", "step %d: %s" % (k, o["vals"])))
     if origin != 0 and not bad:
-        obs0, _ = LC.run_history(entry["factory"], hist, 0, index_kind, fhvariant=fhvariant)
+        obs0, _ = LC.run_history(entry["factory"], hist, 0, index_kind, fhvariant=fhvariant, exog=entry.get("exog", False))
         for k, (o, o0) in enumerate(zip(obs, obs0)):
             if "vals" in o and "vals" in o0:
                 if o["times"] != o0["times"] or not LC.close(o["vals"], o0["vals"]):
@@ -71,7 +71,7 @@ def check_c03(ctx, entry, beh, origin, index_kind, fhvariant):
 
 def check_c10(ctx, entry, beh, origin, index_kind, fhvariant):
     hist = beh["hist"]
-    obs, _ = LC.run_history(entry["factory"], hist, origin, index_kind, want_ref=True, fhvariant=fhvariant)
+    obs, _ = LC.run_history(entry["factory"], hist, origin, index_kind, want_ref=True, fhvariant=fhvariant, exog=entry.get("exog", False))
     bad = []
     refit_since_fit = False
     fit_fh = {"steps": [], "rel": True}
@@ -123,7 +123,7 @@ def check_c10(ctx, entry, beh, origin, index_kind, fhvariant):
             eff = exp["sfh"]
             ffh = fit_fh if entry["mode"] == "req" else {"steps": [], "rel": True}
             try:
-                tt, tv = LC.twin_predict(entry["factory"], step, ffh, eff, origin, index_kind)
+                tt, tv = LC.twin_predict(entry["factory"], step, ffh, eff, origin, index_kind, exog=entry.get("exog", False))
             except Exception as e:  # the canonical history must itself be valid
                 bad.append(("TwinHistoryRuns", "step %d: %s %s" % (k, type(e).__name__, str(e)[:100])))
                 continue
